@@ -5,6 +5,7 @@ import XalanModel.C18.RoundTripProofs
 import XalanModel.C18.RoundProofs
 import XalanModel.C18.FastPathProofs
 import XalanModel.C18.PrintfRoundTripProofs
+import XalanModel.Generated.C18_Recycle
 /-!
 # C18 — number/string conversions follow XPath and round-trip
 
@@ -446,5 +447,18 @@ theorem round_spec_counterexample_negative_zero :
     roundSpec (Dbl.ofBits 0xbfd3333333333333) = Dbl.zero true ∧
     roundV0 (Dbl.zero true) = Dbl.zero false ∧ roundSpec (Dbl.zero true) = Dbl.zero true := by
   decide +kernel
+
+/-! ## the engine's recycled value objects -/
+
+/-- **A recycled XNumber / XString takes the new value unconditionally**: in the current source
+`XNumber::set` is exactly `m_value = theValue; m_cachedStringValue.clear();`, `XString::set` is exactly
+`m_value = theString; clearCachedNumberValue();`, and the factory's recycle branches go through `set`.
+(An "unchanged?" shortcut on `==` would keep +0 where -0 is set, and a stale cached string.)  The
+behaviour itself is observed by the engine stream of the check (values bound to variables after equal
+but not identical values were created and dropped in the same transformation). -/
+theorem recycled_objects_take_the_new_value :
+    Generated.C18.xnumberSetUnconditional = true ∧ Generated.C18.xstringSetUnconditional = true ∧
+    Generated.C18.factoryRecyclesThroughSet = true := by
+  decide
 
 end XalanModel.Props.C18
